@@ -135,6 +135,7 @@ pub fn execute(case: &ChanCase) -> ChanRun {
         weak: case.weak,
         log_ops: true,
         abort_unwind: true,
+        script: vec![],
     };
     let exec = Exec::new(cfg, n);
     let ch: Arc<Channel<Payload>> = Arc::new(Channel::new());
@@ -400,7 +401,7 @@ pub fn analyse(case: &ChanCase, run: &ChanRun) -> CaseReport {
                     j += 1;
                 }
                 if inflight_other {
-                    rep.classes.push("solo-with-inflight");
+                    rep.class("solo-with-inflight");
                 }
                 if closed {
                     if steps > 4 * calls + spur + 2 * calls.saturating_sub(1) {
@@ -451,28 +452,26 @@ pub fn analyse(case: &ChanCase, run: &ChanRun) -> CaseReport {
     }
     let nested_ran = run.res.nested_run > 0;
     if overlap {
-        rep.classes.push("overlap");
+        rep.class("overlap");
     }
     if nested_ran {
-        rep.classes.push("nested");
+        rep.class("nested");
     }
     if run.res.stale_reads > 0 {
-        rep.classes.push("stale-read");
+        rep.class("stale-read");
     }
     if run.res.spurious > 0 {
-        rep.classes.push("spurious-cas");
+        rep.class("spurious-cas");
     }
     if solo_started {
-        rep.classes.push("solo");
+        rep.class("solo");
     }
     rep.nontrivial = overlap || nested_ran;
-    rep.counters = vec![
-        ("steps", run.res.steps),
-        ("switches", run.res.switches),
-        ("stale_reads", run.res.stale_reads),
-        ("spurious_cas", run.res.spurious),
-        ("nested", run.res.nested_run as u64),
-    ];
+    rep.count("steps", run.res.steps);
+    rep.count("switches", run.res.switches);
+    rep.count("stale_reads", run.res.stale_reads);
+    rep.count("spurious_cas", run.res.spurious);
+    rep.count("nested", run.res.nested_run as u64);
     // realised interleaving hash: sequence of (tid, kind) of call/ret records
     let shape: Vec<(i32, bool, bool, i64)> = log
         .iter()
@@ -485,6 +484,7 @@ pub fn analyse(case: &ChanCase, run: &ChanRun) -> CaseReport {
     rep.hash = hash_of(&shape);
 
     let completed = run.res.outcome == Outcome::Completed && panics.is_empty();
+    rep.aborted = run.res.outcome != Outcome::Completed;
     if completed && !run.res.violations.iter().any(|v| v.key.starts_with("C07/race")) {
         // ---- C06
         let sends: Vec<&OpRec> = ops.iter().filter(|o| o.is_send).collect();
@@ -552,7 +552,7 @@ pub fn analyse(case: &ChanCase, run: &ChanRun) -> CaseReport {
             }
         }
         if discards > 0 {
-            rep.classes.push("discard");
+            rep.class("discard");
         }
         // (d) empty
         for r in &recvs {
@@ -600,7 +600,7 @@ pub fn analyse(case: &ChanCase, run: &ChanRun) -> CaseReport {
             }
         }
         if cross {
-            rep.classes.push("cell-cross-thread");
+            rep.class("cell-cross-thread");
         }
     }
     rep.violations.dedup_by(|a, b| a.key == b.key);
